@@ -198,7 +198,7 @@ def run(c, chk):
                 got = K.get(rule, ['?'])
                 if len(got) > 1 or any('?' in g_ for g_ in got):
                     # the action branches on / returns part of the matched text: keep the paths this text can take
-                    got = lexmodel.classes_for(lex, rule, s[i:i + ln])
+                    got = lexmodel.classes_for(lex, rule, s[i:i + ln], sc=scname)
                 good = (ln == exp[1]) and implements(exp[0], got)
                 if good and exp[0].startswith('env') and len(exp) > 2:
                     pass
@@ -280,6 +280,8 @@ def run(c, chk):
                     nshape += 1
                     r, ln = dfa.match(scname, s + suffix)
                     k = K.get(r, ['?'])
+                    if len(set(_base(x) for x in k)) > 1:
+                        k = lexmodel.classes_for(lex, r, s, sc=scname)       # one action for both contexts that asks YY_START
                     if not (ln == len(s) and set(_base(x) for x in k) == {want}):
                         bad.setdefault(scname, (s + suffix, r, ln, k))
             # never in single quotes
@@ -418,6 +420,11 @@ def subst_action_ok(lex, r, scname):
     aps = lex.actions.get(r, [])
     if not aps:
         return 'no action'
+    aps = [ap for ap in aps if lexmodel.consistent_with(ap, b'', lex, lex.dfa.sc.get(scname))]
+    if not aps:
+        return 'no action path for this start condition'
+    searched = False
+    handscan = False
     for ap in aps:
         g = ap.of('getenv')
         if len(g) != 1:
@@ -431,8 +438,16 @@ def subst_action_ok(lex, r, scname):
         if ap.effects.index(cut[0]) > ap.effects.index(g[0]):
             return 'the closing "}" is cut after getenv()'
         sc = [x for x in ap.of('call') if x[1] == 'strchr']
-        if not sc or not (sc[0][2][1] == ('c', ord(':'))):
-            return 'no search for ":" (the ":-default" form)'
+        byhand = any(cn[0] == 'icmp' and cn[1] in ('eq', 'ne') and ('c', ord(':')) in (cn[2], cn[3]) and sym.mentions(cn, lambda x: x == ('g', '@cfg_yytext'))
+                     for cn, t, _ in ap.path.assume)       # a hand-written scan of the text for the colon
+        if (sc and sc[0][2][1] == ('c', ord(':'))) or byhand:
+            searched = True
+        if byhand and not sc:
+            handscan = True
+    if not searched:
+        return 'no search for ":" (the ":-default" form)'
+    for ap in []:
+        pass
     # the default is used exactly when getenv() returned NULL; the value exactly when it did not
     for ap in aps:
         g = ap.of('getenv')[0][2]
@@ -448,8 +463,8 @@ def subst_action_ok(lex, r, scname):
         for v in vals:
             if sym.mentions(v, lambda x: x == gres):
                 src = 'value'
-            elif sym.mentions(v, lambda x: x[0] == 'call' and x[1] == 'strchr'):
-                src = src or 'default'
+            elif sym.mentions(v, lambda x: (x[0] == 'call' and x[1] == 'strchr') or x == ('g', '@cfg_yytext')):
+                src = src or 'default'        # a place inside the matched text
         if src == 'default' and nf.get(gres) is not True:
             return 'the ":-default" text is used on a path where getenv() did not return NULL (a variable that is set, e.g. to the empty string, must win)'
         if src == 'value' and nf.get(gres) is not False:
@@ -474,9 +489,12 @@ def subst_action_ok(lex, r, scname):
                 vals.add('empty')
             elif y[0] == 'idx' and y[1] == ('str', '') :
                 vals.add('empty')
+            elif sym.mentions(y, lambda x: x == ('g', '@cfg_yytext')):
+                vals.add('default')       # a place inside the matched text (found by a hand-written scan)
             else:
                 return 'unexpected token value %s' % sym.render(y)
-        if vals != {'value', 'default', 'empty'}:
+        if vals != {'value', 'default', 'empty'} and not (handscan and vals == {'value', 'empty'}):
+            # (a hand-written scan finds the colon only after more iterations than the exploration bound unrolls)
             return 'token value outcomes are %s, expected value/default/empty' % sorted(vals)
     return True
 
